@@ -139,6 +139,21 @@ def check(ctx):
     ctx.floor("R-1", "encoders analysed", len(MESSAGE_TYPES) + 2, 10)
 
     # ---- R-3 emptiness and the protected bstr ---------------------------------------------------------------
+    check_is_empty(ctx, "R-3")
+    check_cbor_bstr(ctx, "R-3")
+
+    # ---- R-4 is part of the header table (first-of / array with len==1 / len!=1 guards) ------------------------
+    f = prog.fn(enc_key("header::Header"))
+    me = MapEncoder(prog, f)
+    cs = [e for e in me.entries if e.get("label") == ("int", 7)] if not me.problem else []
+    kinds = sorted((e.get("kind") or "").split("<")[0] + ":" + ",".join(g for g in e.get("guard", []) if g.startswith("len")) for e in cs)
+    ctx.ob("R-4", "counter-signature-form", kinds == ["array:len!=1:counter_signatures", "first-of:len==1:counter_signatures"],
+           "exactly one counter-signature is emitted inline (element 0), any other number as an array", where=f.span, detail={"forms": kinds})
+
+
+def check_is_empty(ctx, rule):
+    """Header::is_empty() truth table over its per-field tests + ProtectedHeader::is_empty delegation"""
+    prog = ctx.prog
     ie = prog.fn("header::Header::is_empty")
     pv = Prov(ie)
     atoms = {}
@@ -158,24 +173,14 @@ def check(ctx):
             a = dict(atoms)
             a[b] = False
             ok = ok and return_values(ie, a) == {False}
-    ctx.ob("R-3", "is_empty-covers-all-fields", ok,
+    ctx.ob(rule, "is_empty-covers-all-fields", ok,
            "Header::is_empty() is true iff every one of the 8 fields is absent/empty (truth table: all-empty -> true, any single field "
            "non-empty -> false)", where=ie.span, detail={"tested_fields": sorted(fields.values()), "struct": allf},
            sample={"tested_fields": sorted(fields.values())})
     pie = prog.fn("header::ProtectedHeader::is_empty")
     rt = Prov(pie).return_term()
-    ctx.ob("R-3", "protected-is_empty", is_call(rt, "header::Header::is_empty") and rt[2] == (("field", ("deref", ("param", 0)), "header"),)
-           or (is_call(rt, "header::Header::is_empty") and show(rt[2][0]).endswith(".header")),
+    ctx.ob(rule, "protected-is_empty", is_call(rt, "header::Header::is_empty") and show(rt[2][0]).endswith(".header"),
            "ProtectedHeader::is_empty() = self.header.is_empty()", where=pie.span, detail={"return": show(rt)})
-    check_cbor_bstr(ctx, "R-3")
-
-    # ---- R-4 is part of the header table (first-of / array with len==1 / len!=1 guards) ------------------------
-    f = prog.fn(enc_key("header::Header"))
-    me = MapEncoder(prog, f)
-    cs = [e for e in me.entries if e.get("label") == ("int", 7)] if not me.problem else []
-    kinds = sorted((e.get("kind") or "").split("<")[0] + ":" + ",".join(g for g in e.get("guard", []) if g.startswith("len")) for e in cs)
-    ctx.ob("R-4", "counter-signature-form", kinds == ["array:len!=1:counter_signatures", "first-of:len==1:counter_signatures"],
-           "exactly one counter-signature is emitted inline (element 0), any other number as an array", where=f.span, detail={"forms": kinds})
 
 
 def check_cbor_bstr(ctx, rule):
